@@ -35,7 +35,7 @@ def ENCODED():
 
     return [wc.encode_weight_and_scale_tensor, wc.encode_bias, wc.core_deinterleave, wc.create_weight_compression_config,
             h2n.create_weights, h2n.create_dma_op, sch.Scheduler.propose_weight_buffering, wc._prepare_scale_and_bias,
-            __import__("ethosu.vela.scaling", fromlist=["x"]).quantise_scale]
+            __import__("ethosu.vela.scaling", fromlist=["x"]).quantise_scale, wc.NpuWeightTensor.max_range_bytes, wc.NpuWeightTensor.double_buffer_size]
 
 
 class _Stream:
